@@ -506,6 +506,7 @@ func runModel(c *Ctx) {
 	for _, v := range vals {
 		sv := SexpVal(v)
 		c.Emit("(paths %s %s)", sv, rs(run1(qPaths, v)))
+		c.Emit("(pathdd %s %s)", sv, rs(run1(compile("[path(..)]"), v)))
 		evs := run1(qToS, v)
 		c.Emit("(tostream %s %s)", sv, rs(evs))
 		if _, ok := evs.([]any); ok {
@@ -573,6 +574,33 @@ func runModel(c *Ctx) {
 			c.Emit("(mktime %s %s)", SexpVal(a), rs(run1(qMk, a)))
 		}
 		c.Count("gmtime/mktime")
+	}
+	// todate text vs the fixed-width model; fromdate / strptime on those texts and on lenient / malformed ones
+	qToDate, qFromDate, qStrp := compile("todate"), compile("fromdate"), compile(`strptime("%Y-%m-%dT%H:%M:%S%z")`)
+	var texts []string
+	for _, t := range secondsCases(r, nrand/2+100) {
+		d := run1(qToDate, t)
+		c.Emit("(todate %s %s)", SexpVal(t), rs(d))
+		if s, ok := d.(string); ok {
+			texts = append(texts, s)
+		}
+		c.Count("todate")
+	}
+	for i, s := range texts {
+		variants := []string{s}
+		if i%4 == 0 {
+			b := []byte(s)
+			variants = append(variants,
+				strings.Replace(s, "-0", "-", 1), strings.Replace(s, "T0", "T", 1), strings.Replace(s, ":0", ":", 2),
+				strings.TrimLeft(s, "0"), s+"Z", strings.TrimSuffix(s, "Z"), strings.Replace(s, "T", " ", 1),
+				strings.Replace(s, "-", "/", 1), "-"+s, s[:len(s)-3]+"60Z", s[:5]+"13"+s[7:], s[:8]+"00"+s[10:], s[:11]+"24"+s[13:],
+				strings.ToLower(s), string(b[:len(b)-1])+"z", "")
+		}
+		for _, v := range variants {
+			c.Emit("(fromdate %s %s)", SexpVal(v), rs(run1(qFromDate, v)))
+			c.Emit("(strptime %s %s)", SexpVal(v), rs(run1(qStrp, v)))
+			c.Count("fromdate")
+		}
 	}
 	// mktime on unnormalised broken-down times (time.Date normalises)
 	for i := 0; i < 300; i++ {
